@@ -302,6 +302,11 @@ pub fn did_open(uri: &str, version: i64, text: &str) -> Value {
 pub fn did_change(uri: &str, version: i64, text: &str) -> Value {
     json!({"jsonrpc":"2.0","method":"textDocument/didChange","params":{"textDocument":{"uri":uri,"version":version},"contentChanges":[{"text":text}]}})
 }
+/// One notification carrying several full-text changes: each replaces the whole document, the last one is the state.
+pub fn did_change_multi(uri: &str, version: i64, texts: &[&str]) -> Value {
+    let changes: Vec<Value> = texts.iter().map(|t| json!({"text": t})).collect();
+    json!({"jsonrpc":"2.0","method":"textDocument/didChange","params":{"textDocument":{"uri":uri,"version":version},"contentChanges":changes}})
+}
 pub fn did_close(uri: &str) -> Value {
     json!({"jsonrpc":"2.0","method":"textDocument/didClose","params":{"textDocument":{"uri":uri}}})
 }
